@@ -17,7 +17,8 @@ CHECKS = {
     "C01": ("Wire.tla theorem W1 (Dec o Enc = id, MC_Wire) model-checked; every pool type x boundary/random values x "
             "1-3 consecutive values x rotating writer/reader pairings executed on real readers/writers and validated by "
             "TrCodec.tla (C01R: k-th read = k-th written value, consumed = written); the three Serializer/Deserializer "
-            "specializations (writer/reader held by value, pointer, unique_ptr) compared on 12 encodings (FORMS event); "
+            "specializations (writer/reader held by value, pointer, unique_ptr) and the real Constexpr/Pedantic/Stream writer and "
+            "reader classes directly (typed block transfers) compared on 16 encodings (FORMS event); "
             "thorough tier repeats everything on the ASan+UBSan build.", "6 C01, 13.5"),
     "C02": ("Hostile byte strings (single-byte defects at every leading position, splices, truncations, random strings) read "
             "through BufferReader/PedanticBufferReader/BoundedReader in an ASan+UBSan build and a plain build with an "
@@ -41,7 +42,7 @@ CHECKS = {
             "PedanticBufferWriter, ConstexprBufferWriter and BoundedWriter over each with guard bytes; table entry frames "
             "re-parsed by Dec; W4 model-checked.", "6 C06"),
     "C10": ("For every generated value a fault is injected at EVERY primitive call position of Read and Write with every error "
-            "code; TrCodec.tla C10Runs requires the code back verbatim, no call after the failure, emitted bytes a prefix of "
+            "code (the usual ones plus others in rotation; all 18 for handle transfers); TrCodec.tla C10Runs requires the code back verbatim, no call after the failure, emitted bytes a prefix of "
             "the fault-free output and nothing written when Prepare fails. The same at the RPC layer: a fault at every "
             "primitive of each of the four pipe ends of SimpleMethodSender/Receiver calls, incl. a method without a "
             "return value (TrRpc.tla FaultFails).", "6 C10"),
@@ -90,19 +91,21 @@ CHECKS = {
             "InvalidHandleReference verbatim). (b) Lifetimes.tla UniqueHandle machine: invariants HClosedOnce/HUnique "
             "model-checked, TLC-generated and random ownership histories replayed on UniqueHandle<CountingPolicy>; TrObj.tla "
             "requires the exact ownership/close/release counters after every operation; the same histories run on "
-            "UniqueFileHandle over real descriptors (closure observed with fcntl).", "6 C15"),
+            "UniqueFileHandle over real descriptors incl. descriptor 0 (closure observed with fcntl).", "6 C15"),
     "C07": ("Tables.tla: definitions evolving by add/remove/mark-deleted/reorder/replace-by-fungible with ids never reused; "
             "MC_Tables checks W6 (every pair of definitions of a history is mutually readable as Project prescribes, reader "
             "positioned after the table) over all histories of <= 4 steps (6 in the thorough tier); TLC emits the 254 "
             "reachable definitions (pool/tables.json) which are instantiated as C++ table types; every ordered (writer, "
-            "reader) pair x entry assignments is written, read - into fresh and into reused, fully populated destinations - "
+            "reader) pair x entry assignments (every fifth pair with 130-character strings and widest-class integers, so "
+            "that entry and nested-table sizes cross 127/128 bytes) is written, read - into fresh and into reused, fully "
+            "populated destinations - "
             "and validated by TrCodec.tla C07R (projection, sentinel).", "6 C07"),
     "C08": ("Gen_TableMut.tla: TLC takes valid table encodings apart into entry frames and emits every single-defect "
             "reassembly (hash, count, duplicate, unknown, padding, declared size, corrupt/truncated value); the real decoder's "
             "status, value, consumed length and error category are compared with Dec of Wire.tla (TrCodec.tla); wrong "
             "hashes are a family (0, all ones, +-1, halves / single bytes cleared, top bit, reversed).", "6 C08"),
     "C09": ("Fungible.tla: DocFungible (the documented fungible pairs as a relation on schemas) and Norm (wire-level "
-            "content); the compiler evaluates IsFungible and Protocol admission on all ordered pairs of a 124-type grammar "
+            "content); the compiler evaluates IsFungible and Protocol admission on all ordered pairs of a 131-type grammar "
             "(every sequence spelling - vector, std::array, C array, tuple, structure member - over every element class) "
             "(FUNG event): reflexive, symmetric, DocFungible => true, admits = value; every pair reported fungible is "
             "cross-decoded on boundary values and judged by Dec of Wire.tla (accept when the counts fit, corresponding "
@@ -114,12 +117,15 @@ CHECKS = {
             "InterfaceBindings -> handler) incl. truncated/corrupted/raw requests are validated call by call by TrRpc.tla "
             "(request framing, dispatcher status, handler log, reply bytes, Invoke result, pipe positions); arguments of "
             "conforming types (narrower / differently signed integers) must travel converted to the declared type "
-            "(AsDeclared); Method::Selector, lookup by index and InterfaceBindings::Match are checked against the spec.", "6 C14"),
+            "(AsDeclared); Method::Selector, lookup by index and InterfaceBindings::Match are checked against the spec; with a "
+            "fault injected on any pipe end a pass that reports success must have sent the whole reply (FaultedCallFails); "
+            "caller and dispatcher also run as two threads over real pipes (FdWriter/FdReader).", "6 C14"),
     "C19": ("Threads.tla: per-thread, per-(T,Slot) storage; MC_Threads explores all interleavings of 2-3 threads running "
             "ThreadLocal programs (Isolation, ScheduleIndependent) and emits the schedules, which real std::threads replay in "
             "lock step; free-running 4-16 threads mix ThreadLocal operations on shared slot types with serializer round "
             "trips (12 encodings, three Serializer forms), RPC connections and reader/writer call sequences with thread-specific "
-            "padding values on their own objects; TrThreads.tla validates every observation against the model and every in-thread "
+            "padding values on their own objects, caller/dispatcher thread pairs over real pipes, and descriptor-ownership "
+            "histories of FdReader/FdWriter (TrObj.tla FFold: no descriptor closed twice); TrThreads.tla validates every observation against the model and every in-thread "
             "codec step against Wire.tla; the executor is built with ThreadSanitizer and a report is a Race event that no "
             "action accepts.", "6 C19"),
 }
